@@ -309,6 +309,16 @@ func (x *Exec) checkPost(st *State, ret *ssa.Return, rs []Val) {
 		ov[n] = TV{V: v, T: x.entryTyp[n]}
 	}
 	env := &Env{x: x, st: st, heap: st.heap, old: x.oldHeap, vars: vars, ovars: ov, pkg: x.specPkg(x.spec)}
+	// vacuity guard: the first return paths are probed for satisfiability; a function none of
+	// whose probed return paths is satisfiable proves nothing (contradictory assumptions)
+	if x.primary && x.pure == 0 && !st.dead && x.nReturnCovers < 3 {
+		x.nReturnCovers++
+		cov := &Obligation{Name: x.qname + "/cover-return", Func: x.qname, Kind: "cover", Text: "a return of the function is reachable under the assumptions made", Mode: x.e.ar.Mode,
+			Goal: False, Assume: st.pc[:len(st.pc):len(st.pc)], Cover: true, Path: strings.Join(st.trace, ">")}
+		x.e.mu.Lock()
+		x.e.obligations = append(x.e.obligations, cov)
+		x.e.mu.Unlock()
+	}
 	for _, c := range x.spec.Ensures {
 		if !x.wantClause(c) || !x.active(c) || (c.group() == "" && !x.primary) {
 			continue
@@ -389,6 +399,39 @@ func (x *Exec) evalAssignTarget(env *Env, c *Clause, spec *FuncSpec) (locs []ass
 		}
 	}()
 	switch t := c.E.(type) {
+	case EBinary:
+		if t.Op == "==>" {
+			// conditional location: assignable only when the guard holds in the pre-state
+			g := env.boolOf(env.eval(t.X))
+			cc := *c
+			cc.E = t.Y
+			locs := x.evalAssignTarget(env, &cc, spec)
+			for i := range locs {
+				locs[i].guard = And(locs[i].g(), g)
+			}
+			return locs
+		}
+	case EQuant:
+		// forall k int :: cond(k) ==> k.$ghost : a set of keys of one ghost map
+		if t.Forall && len(t.Vars) == 1 {
+			if bb, ok := t.Body.(EBinary); ok && bb.Op == "==>" {
+				if sel, ok := bb.Y.(ESel); ok && strings.HasPrefix(sel.Sel, "$") {
+					if id, ok := sel.X.(EIdent); ok && id.Name == t.Vars[0].Name {
+						e.nfresh++
+						bv := Var(fmt.Sprintf("$b_%s_%d", id.Name, e.nfresh), e.ar.I())
+						sub := *env
+						sub.vars = map[string]TV{}
+						for k, v := range env.vars {
+							sub.vars[k] = v
+						}
+						sub.vars[id.Name] = TV{V: VScalar{bv}, T: types.Typ[types.Int]}
+						sub.bound = append(append([]*Term{}, env.bound...), bv)
+						cond := sub.boolOf(sub.eval(bb.X))
+						return []assignLoc{{kind: "ghostset", text: sel.Sel, bv: bv, cond: cond}}
+					}
+				}
+			}
+		}
 	case ESlice:
 		b := env.eval(t.X)
 		s, ok := b.V.(VSlice)
@@ -518,7 +561,7 @@ func (x *Exec) coveredRange(st *State, locs []assignLoc, elem types.Type, reg, l
 	var cs []*Term
 	for _, l := range locs {
 		if l.kind == "range" && typeKey(l.elemT) == typeKey(elem) {
-			cs = append(cs, And(Eq(l.reg, reg), e.ar.Cmp(token.LEQ, tInt, l.lo, lo), e.ar.Cmp(token.LEQ, tInt, hi, l.hi)))
+			cs = append(cs, And(l.g(), Eq(l.reg, reg), e.ar.Cmp(token.LEQ, tInt, l.lo, lo), e.ar.Cmp(token.LEQ, tInt, hi, l.hi)))
 		}
 	}
 	// empty ranges write nothing
@@ -532,10 +575,12 @@ func (x *Exec) coveredField(st *State, locs []assignLoc, sty types.Type, field i
 		switch l.kind {
 		case "field":
 			if structKey(l.sty) == structKey(sty) && l.field == field {
-				cs = append(cs, Eq(l.ref, ref))
+				cs = append(cs, And(l.g(), Eq(l.ref, ref)))
 			}
 		case "object":
-			cs = append(cs, x.objectCovers(l.sty, l.ref, sty, ref)...)
+			for _, oc := range x.objectCovers(l.sty, l.ref, sty, ref) {
+				cs = append(cs, And(l.g(), oc))
+			}
 		}
 	}
 	return Or(cs...)
@@ -604,28 +649,49 @@ func (x *Exec) checkLocAssignable(st *State, in ssa.Instruction, loc assignLoc, 
 		cs := []*Term{Not(st.isAllocIn(x.oldHeap, x.rootRef(loc.ref)))}
 		for _, l := range x.assignLocs {
 			if l.kind == "object" {
-				cs = append(cs, x.objectCovers(l.sty, l.ref, loc.sty, loc.ref)...)
+				for _, oc := range x.objectCovers(l.sty, l.ref, loc.sty, loc.ref) {
+					cs = append(cs, And(l.g(), oc))
+				}
 			}
 		}
 		g = Or(cs...)
 	case "cell":
 		return
 	case "ghost":
-		cs := []*Term{Not(st.isAllocIn(x.oldHeap, loc.ref))}
+		cs := []*Term{Not(st.isAllocIn(x.oldHeap, x.rootRef(loc.ref)))}
 		for _, l := range x.assignLocs {
 			if l.kind == "ghost" && l.text == loc.text {
-				cs = append(cs, Eq(l.ref, loc.ref))
+				cs = append(cs, And(l.g(), Eq(l.ref, loc.ref)))
+			}
+			if l.kind == "ghostset" && l.text == loc.text {
+				cs = append(cs, And(l.g(), Subst(l.cond, map[string]*Term{l.bv.Name: loc.ref})))
 			}
 		}
 		g = Or(cs...)
-	case "global":
-		ok := false
+	case "ghostset":
+		// every key the callee may assign is fresh or one the caller may assign
+		h := Var("$b_gsk", x.e.ar.I())
+		cs := []*Term{Not(st.isAllocIn(x.oldHeap, h))}
 		for _, l := range x.assignLocs {
-			if l.kind == "global" && l.text == loc.text {
-				ok = true
+			if l.kind == "ghost" && l.text == loc.text {
+				cs = append(cs, And(l.g(), Eq(l.ref, h)))
+			}
+			if l.kind == "ghostset" && l.text == loc.text {
+				cs = append(cs, And(l.g(), Subst(l.cond, map[string]*Term{l.bv.Name: h})))
 			}
 		}
-		g = Bool(ok)
+		g = Forall([]*Term{h}, Implies(Subst(loc.cond, map[string]*Term{loc.bv.Name: h}), Or(cs...)))
+	case "global":
+		var cs []*Term
+		for _, l := range x.assignLocs {
+			if l.kind == "global" && l.text == loc.text {
+				cs = append(cs, l.g())
+			}
+		}
+		g = Or(cs...)
+	}
+	if loc.guard != nil {
+		g = Implies(loc.guard, g)
 	}
 	x.safety(st, in, "assigns", g, "location "+loc.text+" assigned by "+callee+" is in the caller's assigns clause or fresh")
 }
@@ -633,7 +699,57 @@ func (x *Exec) checkLocAssignable(st *State, in ssa.Instruction, loc assignLoc, 
 // havocLoc: the callee may have changed this location arbitrarily
 func (x *Exec) havocLoc(st *State, loc assignLoc) {
 	e := x.e
+	if loc.guard != nil && !loc.guard.IsTrue() && loc.kind == "range" && !isStruct(loc.elemT) {
+		// conditional range: the guard joins the "inside the range" condition
+		for _, l := range e.leaves(loc.elemT) {
+			name := memName(loc.elemT, l.Name)
+			m := st.heapGet(name, e.memSort(l.S))
+			old := SelectD(m, loc.reg)
+			na := e.fresh("hv", old.S)
+			kv := Var("$b_khv", e.ar.I())
+			in := And(loc.guard, e.ar.Cmp(token.LEQ, tInt, loc.lo, kv), e.ar.Cmp(token.LSS, tInt, kv, loc.hi))
+			sel := Select(na, kv)
+			st.assume(Forall([]*Term{kv}, Implies(Not(in), Eq(sel, Select(old, kv))), sel))
+			st.heapSet(name, Store(m, loc.reg, na))
+		}
+		return
+	}
+	if loc.guard != nil && !loc.guard.IsTrue() {
+		// conditional location: the heap maps keep their old value when the guard is false
+		if loc.kind == "cell" || loc.kind == "global" {
+			x.fail("conditional assigns of local cells / globals unsupported")
+		}
+		before := copyHeap(st.heap)
+		l2 := loc
+		l2.guard = nil
+		x.havocLoc(st, l2)
+		var names []string
+		for n := range st.heap {
+			names = append(names, n)
+		}
+		sort.Strings(names)
+		for _, n := range names {
+			nv := st.heap[n]
+			ov, ok := before[n]
+			if ok && ov != nv {
+				st.heap[n] = Ite(loc.guard, nv, ov)
+			}
+		}
+		return
+	}
 	switch loc.kind {
+	case "ghostset":
+		t := e.ghostType(loc.text)
+		if t == nil {
+			x.fail("undeclared ghost field %s", loc.text)
+		}
+		for _, l := range e.leaves(t) {
+			name := "Gh_" + loc.text[1:] + "_" + l.Name
+			old := st.heapGet(name, e.fldSort(l.S))
+			nv := st.heapHavoc(name, e.fldSort(l.S))
+			h := Var("$b_gsh", e.ar.I())
+			st.assume(Forall([]*Term{h}, Implies(Not(Subst(loc.cond, map[string]*Term{loc.bv.Name: h})), Eq(Select(nv, h), Select(old, h))), Select(nv, h)))
+		}
 	case "range":
 		if isStruct(loc.elemT) {
 			x.fail("assigns of struct-element ranges unsupported")
@@ -720,6 +836,9 @@ func (x *Exec) loopHavocHeap(st *State, fr *Frame, h *loopHdr) {
 			for _, l := range x.assignLocs {
 				if l.kind == "ghost" && strings.HasPrefix(n, "Gh_"+l.text[1:]+"_") {
 					cs = append(cs, Eq(l.ref, r))
+				}
+				if l.kind == "ghostset" && strings.HasPrefix(n, "Gh_"+l.text[1:]+"_") {
+					cs = append(cs, Subst(l.cond, map[string]*Term{l.bv.Name: r}))
 				}
 			}
 			st.assume(Forall([]*Term{r}, Implies(Not(Or(cs...)), Eq(Select(nv, r), Select(old, r))), Select(nv, r)))
@@ -1078,6 +1197,25 @@ func (x *Exec) assignTargetMaps(c *Clause, fn *ssa.Function, spec *FuncSpec, sig
 		}
 	}
 	switch t := c.E.(type) {
+	case EBinary:
+		if t.Op == "==>" {
+			cc := *c
+			cc.E = t.Y
+			return x.assignTargetMaps(&cc, fn, spec, sig)
+		}
+	case EQuant:
+		if bb, ok := t.Body.(EBinary); ok && bb.Op == "==>" {
+			if sel, ok := bb.Y.(ESel); ok && strings.HasPrefix(sel.Sel, "$") {
+				gt := e.ghostType(sel.Sel)
+				if gt == nil {
+					return nil, false
+				}
+				for _, l := range e.leaves(gt) {
+					out["Gh_"+sel.Sel[1:]+"_"+l.Name] = e.fldSort(l.S)
+				}
+				return out, true
+			}
+		}
 	case ESlice, EIndex:
 		var bx Expr
 		if s, ok := t.(ESlice); ok {
@@ -1362,10 +1500,42 @@ func (x *Exec) refinerAssigns(env *Env, dt types.Type, ref *Term) ([]assignLoc, 
 			sub.pkg = tp.Types
 		}
 		for _, a := range fs.Assigns {
-			locs = append(locs, x.evalAssignTarget(&sub, a, fs)...)
+			// targets that mention the method's other parameters belong to the call's own
+			// assigns clause (the interface contract lists them), not to the object's footprint
+			func() {
+				defer func() {
+					if r := recover(); r != nil {
+						if v, ok := r.(evalErr); ok && strings.Contains(string(v), "unknown identifier") {
+							return
+						}
+						panic(r)
+					}
+				}()
+				locs = append(locs, x.evalAssignTarget(&sub, a, fs)...)
+			}()
+		}
+	}
+	if !found {
+		// methods promoted from an embedded first field act on the same object (field 0 shares identity)
+		if et := embeddedBase(named); et != nil {
+			return x.refinerAssigns(env, types.NewPointer(et), ref)
 		}
 	}
 	return locs, found
+}
+
+// embeddedBase: the named struct type embedded as the first field of a named struct type, if any
+func embeddedBase(named *types.Named) types.Type {
+	s, ok := named.Underlying().(*types.Struct)
+	if !ok || s.NumFields() == 0 || !s.Field(0).Embedded() {
+		return nil
+	}
+	if n, ok := types.Unalias(s.Field(0).Type()).(*types.Named); ok {
+		if _, ok := n.Underlying().(*types.Struct); ok {
+			return n
+		}
+	}
+	return nil
 }
 
 // constraintFor: the history constraint declared for the (pointer-to-named-struct) type of a handle
@@ -1384,6 +1554,9 @@ func (x *Exec) constraintFor(st *State, t types.Type, self Val, old map[string]*
 	}
 	c := ps.Constraints[named.Obj().Name()]
 	if c == nil {
+		if et := embeddedBase(named); et != nil {
+			return x.constraintFor(st, types.NewPointer(et), self, old)
+		}
 		return nil, nil
 	}
 	vars := map[string]TV{"self": {V: self, T: t}}
